@@ -1008,7 +1008,14 @@ func ruleRecoveryNoEarlyWrite(r *Run, rule string) {
 		}
 		n++
 		for _, e := range p.Ev {
-			if name, ok := isUpdaterCall(e); ok && bad == "" {
+			name, ok := isUpdaterCall(e)
+			if !ok && e.Kind == EvCall && !e.Inlined {
+				// a helper that (transitively) writes the plan
+				if k := CalleeKey(e); strings.HasPrefix(k, pkgSM+".") && storeUpdatesReached(r, k)["UpdatePlan"] {
+					name, ok = ShortFn(k)+" (which writes the plan)", true
+				}
+			}
+			if ok && bad == "" {
 				bad = "Recovery calls " + name + " on the path that restarts the plan from Start: a plan fixPlan reset to NotStarted would be stored as NotStarted, and after a second crash it is never found again (start-up only searches for Running plans)"
 			}
 		}
@@ -1067,4 +1074,17 @@ func ruleFixBlockLaunch(r *Run, rule string) {
 		return
 	}
 	r.Check(rule, "fixBlock:resumes-only-running-sequences", bpos, bad == "", "%s", orOK(bad, "launch under case Running only"))
+}
+
+// storeUpdatesReached: the storage Update* methods a function of the sm package reaches (through sm functions).
+func storeUpdatesReached(r *Run, key string) map[string]bool {
+	out := map[string]bool{}
+	for k := range r.P.CallGraph().Reach([]string{key}, func(e CallEdge) bool {
+		return strings.HasPrefix(e.Callee, pkgSM+".") || strings.HasPrefix(e.Callee, "workflow/storage.")
+	}) {
+		if strings.HasPrefix(k, "workflow/storage.") {
+			out[k[strings.LastIndex(k, ".")+1:]] = true
+		}
+	}
+	return out
 }
